@@ -39,7 +39,9 @@ P = {'id': 'C13',
               'range_read_is_cursor_read',
               'sbr_over_range_stream',
               'range_writer_confined',
-              'range_writer_contiguous'],
+              'range_writer_contiguous',
+              'mmap_zc_reads_concat',
+              'mmap_zc_set_position'],
  'trusted': ['modelled (M+S): src/io/var_int.rs (VarInt, SignedVarInt), src/io/var_int_variants.rs (all 7 strategies, single values and sequences); '
              'src/io/simd_encoding/varint.rs (batch = concatenation of scalar LEB128); src/io/data_output.rs / data_input.rs item formats (fixed-width LE, '
              'varint, length-prefixed bytes/strings); src/io/endian.rs EndianIO byte layouts (LE/BE, any width) and byte swap; Option / Vec (u32 count) / '
